@@ -549,6 +549,9 @@ def ins_lattice(seed, quick, resume_subsets=True):
         assigns.append({"model": "G2tilt"})
         assigns.append({"model": "G2tilt", "draw_iid_live": False, "reparameterisation": None})
         assigns.append({"min_remove": 5})
+        # runs that stop because the criteria are met (not at the iteration cap), also resumed at every checkpoint
+        assigns.append({"stopping_criterion": "log_dZ", "tolerance": 5.0, "max_iteration": 8})
+        assigns.append({"stopping_criterion": ["ratio", "ess"], "tolerance": [0.5, 1000.0], "check_criteria": "any", "max_iteration": 8})
         # sizes that are equal by default are made to differ: initial samples vs nlive vs per-level draws
         assigns.append({"n_initial": 120})
         assigns.append({"n_initial": 30, "draw_iid_live": False})
@@ -773,6 +776,18 @@ def check_ins_results(fs, model, errs, tol=1e-9):
     check_repeated_reads(ns, errs)
     samples = np.asarray(fs.nested_samples)
     hist = ns.history
+    # the run (however many times it was interrupted and resumed) must have stopped at the FIRST
+    # iteration whose recorded criteria meet the tolerances (at or beyond the minimum)
+    try:
+        crit = [list(hist["stopping_criteria"][k]) for k in ns.stopping_criterion]
+        n_it = min(len(c) for c in crit) if crit else 0
+        for j in range(n_it - 1):
+            met = [c[j] <= t for c, t in zip(crit, ns.tolerance)]
+            if (any(met) if ns._stop_any else all(met)) and (j + 1) >= ns.min_iteration:
+                err("ins:ran-on-after-the-recorded-criteria-met-the-tolerances", f"after iteration {j + 1} the recorded {ns.stopping_criterion} = {[c[j] for c in crit]} met {ns.tolerance} ({'any' if ns._stop_any else 'all'}), but {n_it} iterations were performed")
+                break
+    except Exception as e:  # pragma: no cover
+        err("ins:stopping-history-unreadable", repr(e))
     n_expected = ns.n_initial + int(np.sum(hist["n_added"]))
     if len(samples) != n_expected:
         err("ins:number-of-returned-samples", f"{len(samples)} vs n_initial {ns.n_initial} + added {hist['n_added']}")
